@@ -419,6 +419,13 @@ class Struct(metaclass=MetaStruct):
 
     def __setstate__(self, state):
         self._buffer, self._offset = state
+        self._offsets = {
+            field.index: Int64._from_buffer(
+                self._buffer, self._offset + field.offset
+            )
+            for field in self._d_fields
+        }
+        self._size = self._get_size()
 
     @classmethod
     def _gen_data_paths(cls, base=None):
